@@ -209,7 +209,9 @@ class C03(Check):
             'resources, pipes, tickers, nested Scope/until with failures, volatile children, late spawns, cancellations, '
             'collect/first, run(till)) on a tiny time grid so that signals race each other; Task.cancel injected at 0-5 sampled '
             '(thorough: all) activation boundaries. non-trivial = program with >=1 race feature (until/cancel/failure/close/'
-            'fault) executed; distinct by sha1(program+faults).')
+            'fault) executed; distinct by sha1(program+faults). Also the directed families of the until / scope-failure checks '
+            '(interrupts overtaking each other during clean-up, an abort replaced by an inner interrupt) and late spawns that are '
+            'cancelled at once, under the same outcome and signal-tap oracle.')
     budgets = {'quick': dict(examples=2400, procs=4), 'thorough': dict(examples=30000, procs=16)}
     level_text = ('Crash-style search with an explicit oracle: run() must end normally or with an exception object the program '
                   'created (also inside Concurrent); taps around every block and payload must never see a bare wake-up '
